@@ -24,11 +24,16 @@ def sh(cmd, cwd=None, env=None, timeout=3600):
 
 def run_demo(wt, a):
     if a.demo_test:
-        dst = os.path.join(wt, "hermes", os.path.basename(a.demo_test))
-        shutil.copy(a.demo_test, dst)
+        # the demonstration may come with helper files: every *_test.go beside it goes along
+        import glob
+        dsts = []
+        for f in glob.glob(os.path.join(os.path.dirname(os.path.abspath(a.demo_test)), "*_test.go")):
+            dst = os.path.join(wt, "hermes", os.path.basename(f))
+            shutil.copy(f, dst); dsts.append(dst)
         tags = ("-tags %s " % a.demo_tags) if a.demo_tags else ""
         rc, out = sh("go test %s-vet=off -count=1 -run '%s' ." % (tags, a.demo_run or "Seed|seed|Zz|ZZ"), cwd=os.path.join(wt, "hermes"))
-        os.remove(dst)
+        for dst in dsts:
+            os.remove(dst)
         return rc, out
     if a.demo_cmd:
         return sh(a.demo_cmd, cwd=wt)
